@@ -58,6 +58,28 @@ func c11DropLogs(n ast.Node) {
 	})
 }
 
+// c11DropWarnings removes log.Warning(...) statements.
+func c11DropWarnings(n ast.Node) {
+	ast.Inspect(n, func(x ast.Node) bool {
+		if b, ok := x.(*ast.BlockStmt); ok {
+			out := b.List[:0:0]
+			for _, s := range b.List {
+				keep := true
+				if es, ok := s.(*ast.ExprStmt); ok {
+					if call, ok := es.X.(*ast.CallExpr); ok && strings.HasPrefix(types.ExprString(call.Fun), "log.Warning") {
+						keep = false
+					}
+				}
+				if keep {
+					out = append(out, s)
+				}
+			}
+			b.List = out
+		}
+		return true
+	})
+}
+
 func c11Text(fset *token.FileSet, n ast.Node) string {
 	var b bytes.Buffer
 	if err := (&printer.Config{Mode: printer.RawFormat}).Fprint(&b, fset, n); err != nil {
@@ -65,6 +87,16 @@ func c11Text(fset *token.FileSet, n ast.Node) string {
 	}
 	// comments are not printed for sub-nodes; normalise white space
 	return strings.TrimSpace(c11WS.ReplaceAllString(b.String(), " "))
+}
+
+func c11Norm(want string) string { return strings.TrimSpace(c11WS.ReplaceAllString(want, " ")) }
+
+func c11CoqBytes(x string) string {
+	parts := []string{}
+	for i := 0; i < len(x); i++ {
+		parts = append(parts, fmt.Sprint(x[i]))
+	}
+	return "[" + strings.Join(parts, "; ") + "]%N"
 }
 
 func c11Pin(what, got, want string) {
@@ -174,18 +206,37 @@ func init() {
 			if needCoverage { files = append(files, filepath.Base(target.CoverageFile())) }
 			return !retrieveFromCache(state, target, hash, files)
 		}`)
-		c11Pin("cacheOutputFiles", c11Text(tfset, c11Closure(tfd, "cacheOutputFiles").Body), `{
-			if len(state.TestArgs) > 0 { return false }
-			if results.Failures() > 0 { return false }
-			if err := moveOutputFile(state, hash, outputFile, target.TestResultsFile(), dummyOutput); err != nil {
+		// cacheOutputFiles is TRANSLATED: the order of its guards and effects becomes Gen `store_steps`, which
+		// Model/C11.v interprets (a guard that comes after an effect no longer protects it).
+		storeSteps := []string{}
+		cof := c11Closure(tfd, "cacheOutputFiles").Body.List
+		for i, st := range cof {
+			txt := c11Text(tfset, st)
+			switch txt {
+			case c11Norm(`if len(state.TestArgs) > 0 { return false }`):
+				storeSteps = append(storeSteps, "SGuardArgs")
+			case c11Norm(`if results.Failures() > 0 { return false }`):
+				storeSteps = append(storeSteps, "SGuardFailures")
+			case c11Norm(`if err := moveOutputFile(state, hash, outputFile, target.TestResultsFile(), dummyOutput); err != nil {
 				state.LogTestResult(target, run, core.TargetTestFailed, results, coverage, err, "Failed to move test output file")
 				return false
-			}
-			if state.Cache != nil && !runRemotely {
+			}`):
+				storeSteps = append(storeSteps, "SMoveResults")
+			case c11Norm(`if state.Cache != nil && !runRemotely {
 				state.Cache.Store(target, hash, append(outs, filepath.Base(target.TestResultsFile())))
+			}`):
+				storeSteps = append(storeSteps, "SCacheStore")
+			case "return true":
+				if i != len(cof)-1 {
+					failShape("cacheOutputFiles: `return true` is not the last statement")
+				}
+			default:
+				failShape("cacheOutputFiles: unrecognised statement %s", txt)
 			}
-			return true
-		}`)
+		}
+		if len(cof) == 0 || c11Text(tfset, cof[len(cof)-1]) != "return true" {
+			failShape("cacheOutputFiles does not end with `return true`")
+		}
 		reuse, store, remove := false, false, false
 		for _, st := range tfd.Body.List {
 			ifs, ok := st.(*ast.IfStmt)
@@ -261,13 +312,170 @@ func init() {
 			failShape("IterRuntimeFiles: sections are %v, the model was written for %v", sections, want)
 		}
 
+		// ---- ruleHash: what the runtime section writes for a test (TRANSLATED into `rule_test_writes`) ----
+		rfd := findFunc(f, "", "ruleHash")
+		var rt *ast.IfStmt
+		for _, st := range rfd.Body.List {
+			if ifs, ok := st.(*ast.IfStmt); ok && types.ExprString(ifs.Cond) == "runtime" {
+				if rt != nil {
+					failShape("ruleHash: more than one `if runtime` block")
+				}
+				rt = ifs
+			}
+		}
+		if rt == nil || rt.Else != nil || len(rt.Body.List) != 2 {
+			failShape("ruleHash: the `if runtime` block is not (data loop; if target.IsTest())")
+		}
+		c11Pin("ruleHash: the data loop of the runtime section", c11Text(fset, rt.Body.List[0]),
+			`for _, datum := range target.AllData() { h.Write([]byte(datum.String())) }`)
+		tst, ok := rt.Body.List[1].(*ast.IfStmt)
+		if !ok || types.ExprString(tst.Cond) != "target.IsTest()" || tst.Else != nil {
+			failShape("ruleHash: the runtime section does not end with `if target.IsTest() {...}`")
+		}
+		ruleWrites := []string{}
+		for _, st := range tst.Body.List {
+			switch txt := c11Text(fset, st); txt {
+			case c11Norm(`for _, output := range target.Test.Outputs { h.Write([]byte(output)) }`):
+				ruleWrites = append(ruleWrites, "RWTestOutputs")
+			case "hashOptionalBool(h, target.Test.Sandbox)":
+				ruleWrites = append(ruleWrites, "RWSandbox")
+			case "h.Write([]byte(target.GetTestCommand(state)))":
+				ruleWrites = append(ruleWrites, "RWTestCmdEffective")
+			case "h.Write([]byte(target.Test.Command))":
+				ruleWrites = append(ruleWrites, "RWTestCmdSingle")
+			case "h.Write([]byte(target.Test.ArgsPlaceholder))":
+				ruleWrites = append(ruleWrites, "RWArgsPlaceholder")
+			default:
+				failShape("ruleHash: unrecognised statement in the test part of the runtime section: %s", txt)
+			}
+		}
+
+		// ---- BuildTarget.getCommand: the order in which a per-config command is chosen (TRANSLATED) ----
+		bfset, bf := parseFile("src/core/build_target.go")
+		c11Pin("GetTestCommand", c11Text(bfset, findFunc(bf, "BuildTarget", "GetTestCommand").Body),
+			"{ return target.getCommand(state, target.Test.Commands, target.Test.Command) }")
+		gc := findFunc(bf, "BuildTarget", "getCommand")
+		c11DropWarnings(gc)
+		if len(gc.Body.List) != 5 {
+			failShape("getCommand: %d statements, the model was written for an if-chain followed by the highest-key loop", len(gc.Body.List))
+		}
+		choices := []string{}
+		chain, ok := gc.Body.List[0].(*ast.IfStmt)
+		if !ok || c11Text(bfset, chain.Cond) != "commands == nil" || c11Text(bfset, chain.Body) != "{ return singleCommand }" {
+			failShape("getCommand does not start with `if commands == nil { return singleCommand }`")
+		}
+		for e := chain.Else; e != nil; {
+			ifs, ok := e.(*ast.IfStmt)
+			if !ok || ifs.Init == nil || c11Text(bfset, ifs.Cond) != "present" || c11Text(bfset, ifs.Body) != "{ return command }" {
+				failShape("getCommand: unrecognised branch %s", c11Text(bfset, e))
+			}
+			switch c11Text(bfset, ifs.Init) {
+			case "command, present := commands[state.Config.Build.Config]":
+				choices = append(choices, "ChActive")
+			case "command, present := commands[state.Config.Build.FallbackConfig]":
+				choices = append(choices, "ChFallback")
+			default:
+				failShape("getCommand: unrecognised lookup %s", c11Text(bfset, ifs.Init))
+			}
+			e = ifs.Else
+		}
+		c11Pin("getCommand: the highest-key fallback", c11Text(bfset, &ast.BlockStmt{List: gc.Body.List[1:]}), `{
+			highestCommand := ""
+			highestConfig := ""
+			for config, command := range commands {
+				if config > highestConfig { highestConfig = config
+				highestCommand = command }
+			}
+			return highestCommand
+		}`)
+		choices = append(choices, "ChHighest")
+
+		// ---- core.TestCommand: test arguments are appended to the command (no placeholder) ----
+		cfset, cf := parseFile("src/core/command_replacements.go")
+		tcf := findFunc(cf, "", "TestCommand")
+		c11Pin("core.TestCommand", c11Text(cfset, tcf.Body), `{
+			cmd, err := ReplaceTestSequences(state, target, target.GetTestCommand(state))
+			if err != nil { return cmd, err }
+			if target.Test != nil && target.Test.ArgsPlaceholder != "" {
+				placeholder := target.Test.ArgsPlaceholder
+				if !strings.Contains(cmd, placeholder) {
+					return "", fmt.Errorf("command %q does not contain expected arguments placeholder %q", cmd, target.Test.ArgsPlaceholder)
+				}
+				args := ""
+				if len(state.TestArgs) > 0 { args = strings.Join(state.TestArgs, " ") }
+				cmd = strings.ReplaceAll(cmd, placeholder, args)
+			} else if len(state.TestArgs) > 0 {
+				cmd += " " + strings.Join(state.TestArgs, " ")
+			}
+			return cmd, nil
+		}`)
+
+		// ---- the default build config and fallback config (src/core/config.go DefaultConfiguration) ----
+		_, gf := parseFile("src/core/config.go")
+		defaults := map[string]string{}
+		ast.Inspect(findFunc(gf, "", "DefaultConfiguration"), func(n ast.Node) bool {
+			as, ok := n.(*ast.AssignStmt)
+			if !ok || len(as.Lhs) != 1 || len(as.Rhs) != 1 {
+				return true
+			}
+			lhs := types.ExprString(as.Lhs[0])
+			if lhs == "config.Build.Config" || lhs == "config.Build.FallbackConfig" {
+				lit, ok := as.Rhs[0].(*ast.BasicLit)
+				if !ok || lit.Kind != token.STRING {
+					failShape("DefaultConfiguration: %s is not set to a string literal", lhs)
+				}
+				if _, dup := defaults[lhs]; dup {
+					failShape("DefaultConfiguration: %s is set twice", lhs)
+				}
+				defaults[lhs] = strings.Trim(lit.Value, "\"")
+			}
+			return true
+		})
+		if len(defaults) != 2 {
+			failShape("DefaultConfiguration does not set both Build.Config and Build.FallbackConfig (found %v)", defaults)
+		}
+
+		// ---- filegroupBuilder.Build: the "same file" branch marks the output as never-read-xattrs (CopyHash) ----
+		gfset, ff := parseFile("src/build/filegroup.go")
+		sameCopies := false
+		ast.Inspect(findFunc(ff, "filegroupBuilder", "Build"), func(n ast.Node) bool {
+			ifs, ok := n.(*ast.IfStmt)
+			if !ok || types.ExprString(ifs.Cond) != "same" {
+				return true
+			}
+			for _, st := range ifs.Body.List {
+				if c11Text(gfset, st) == "state.PathHasher.CopyHash(from, to)" {
+					sameCopies = true
+				}
+			}
+			return true
+		})
+
 		var b strings.Builder
 		b.WriteString("(* RuntimeHash (src/build/incrementality.go): what the loop over core.IterRuntimeFiles writes per runtime file.\n")
 		b.WriteString("   needToRun / cacheOutputFiles / the reuse and store branches of test() (src/test/test_step.go) and the\n")
 		b.WriteString("   section order and pushOut of IterRuntimeFiles (src/core/utils.go) were checked against the pinned shapes. *)\n")
-		b.WriteString("From Coq Require Import List. Import ListNotations.\n")
+		b.WriteString("From Coq Require Import List NArith. Import ListNotations.\n")
 		b.WriteString("Inductive write := WPathHash | WPathName.\n")
 		fmt.Fprintf(&b, "Definition loop_writes : list write := [%s].\n", strings.Join(writes, "; "))
+		b.WriteString("(* ruleHash(runtime=true), test part of the runtime section: what is written, in order.  RWTestCmdEffective =\n")
+		b.WriteString("   target.GetTestCommand(state) (the command of the active build config); RWTestCmdSingle = target.Test.Command\n")
+		b.WriteString("   (the plain-string form only, empty for a per-config dict). *)\n")
+		b.WriteString("Inductive rwrite := RWTestOutputs | RWSandbox | RWTestCmdEffective | RWTestCmdSingle | RWArgsPlaceholder.\n")
+		fmt.Fprintf(&b, "Definition rule_test_writes : list rwrite := [%s].\n", strings.Join(ruleWrites, "; "))
+		b.WriteString("(* cacheOutputFiles (src/test/test_step.go): its guards and effects, in order. *)\n")
+		b.WriteString("Inductive store_step := SGuardArgs | SGuardFailures | SMoveResults | SCacheStore.\n")
+		fmt.Fprintf(&b, "Definition store_steps : list store_step := [%s].\n", strings.Join(storeSteps, "; "))
+		b.WriteString("(* BuildTarget.getCommand (src/core/build_target.go): where a per-config command is looked up, in order. *)\n")
+		b.WriteString("Inductive cmd_choice := ChActive | ChFallback | ChHighest.\n")
+		fmt.Fprintf(&b, "Definition get_command_order : list cmd_choice := [%s].\n", strings.Join(choices, "; "))
+		fmt.Fprintf(&b, "(* DefaultConfiguration (src/core/config.go): Build.Config = %q, Build.FallbackConfig = %q *)\n",
+			defaults["config.Build.Config"], defaults["config.Build.FallbackConfig"])
+		fmt.Fprintf(&b, "Definition default_config : list N := %s.\n", c11CoqBytes(defaults["config.Build.Config"]))
+		fmt.Fprintf(&b, "Definition fallback_config : list N := %s.\n", c11CoqBytes(defaults["config.Build.FallbackConfig"]))
+		b.WriteString("(* filegroupBuilder.Build (src/build/filegroup.go): the branch for an output that already is the same file as its\n")
+		b.WriteString("   source calls PathHasher.CopyHash, which keeps the content-hash xattr off the inode shared with the source file. *)\n")
+		fmt.Fprintf(&b, "Definition filegroup_same_branch_copies_hash : bool := %v.\n", sameCopies)
 		return b.String()
 	}
 }
